@@ -283,6 +283,14 @@ def judge_history(case) -> Verdict:
             elif name == "port_nr":
                 p.port_nr = bool(op[1])
                 cur["port_nr"] = bool(op[1])
+            elif name == "swap-op":
+                # same operands, other operator (gt N <-> lt N, eq list <-> neq list)
+                other = {"gt": "lt", "lt": "gt", "eq": "neq", "neq": "eq"}.get(cur["op"])
+                if other is None:
+                    continue
+                new = dict(cur, op=other, nm=[])
+                p.line = new["op"] + " " + " ".join(str(x) for x in new["v"])
+                cur = new
             elif name == "line":
                 new = dict(cur, op=op[1], v=list(op[2]), nm=[])
                 validate_case(new)
@@ -324,7 +332,7 @@ def history_case(draw):
     init.pop("slow", None)
     ops = []
     for _ in range(draw(st.integers(2, 8))):
-        kind = draw(st.sampled_from(["items", "ports", "sport", "sport", "port_nr", "line"]))
+        kind = draw(st.sampled_from(["items", "ports", "sport", "sport", "port_nr", "line", "swap-op"]))
         if kind == "port_nr":
             ops.append(["port_nr", draw(st.booleans())])
         elif kind == "line":
